@@ -471,6 +471,48 @@ impl Meta {
             script.extend(l2.iter().cloned());
         }
         let which = rng.usize(4);
+        if which == 1 && !l2.is_empty() && s.listing_text().len() == l2.len() {
+            // CLEAR executed by the program itself, wherever it is (inside loops and subroutines): `CLEAR:STOP`
+            // is put in front of one line; when the run stops there the probe must show the start-up state
+            let i = rng.usize(l2.len());
+            let (num, rest) = l2[i].split_once(' ').unwrap_or((l2[i].as_str(), ""));
+            let patched = format!("{} CLEAR:STOP:{}", num, rest);
+            if patched.len() < 1000 {
+                script.push(patched.clone());
+                script.push("RUN".into());
+                s.enter(&patched);
+                s.drain(16);
+                s.auto_replies = p2.replies.clone();
+                s.auto_pos = 0;
+                let (t, st) = cmd0(&mut s, "RUN");
+                if st == Stop::Budget {
+                    ctx.count("discarded_budget");
+                    return;
+                }
+                if t.contains(&format!("?BREAK IN {}\n", num)) && t.matches("?BREAK IN").count() == 1 {
+                    let pr = s.rt.verif_probe();
+                    let fresh = Session::new().rt.verif_probe();
+                    ctx.count("clear_in_program_probes");
+                    if !pr.vars.is_empty() || !pr.dims.is_empty() || pr.types != fresh.types || !pr.functions.is_empty() || !pr.stack.is_empty() || pr.data_pos != 0 {
+                        ctx.violation(
+                            "clear-incomplete",
+                            "reset:clear-in-program",
+                            &format!(
+                                "after CLEAR executed in line {}: vars={:?} dims={:?} types_default={} functions={:?} stack={:?} data_pos={}",
+                                num, pr.vars, pr.dims, pr.types == fresh.types, pr.functions, pr.stack, pr.data_pos
+                            ),
+                            &script.join("\n"),
+                        );
+                        return;
+                    }
+                }
+                // put the line back
+                script.push(l2[i].clone());
+                s.enter(&l2[i]);
+                s.drain(16);
+                s.auto_pos = 0;
+            }
+        }
         if which == 0 {
             // CLEAR leaves the start-up state
             script.push("CLEAR".into());
